@@ -138,6 +138,8 @@ def producer_chain(repo) -> tuple[list[int], list[str]]:
 
 def run(chk) -> None:
     repo = chk.repo
+    from ._engine import engine_view
+    chk.extra["helpers_inlined"] = engine_view(repo)
     mrp = repo.module(RP)
     vals, notes = producer_chain(repo)
     chk.extra["producer_chain"] = {"notes": notes, "values_for_retry_1_to_5": vals}
@@ -201,7 +203,7 @@ def run(chk) -> None:
         ok = isinstance(e, ast.BinOp) and isinstance(e.op, ast.Add) and f"{cmd}.delay" in (ast.unparse(e.left), ast.unparse(e.right)) and any("get_now" in ast.unparse(x) or ast.unparse(x) == "now" for x in (e.left, e.right))
         chk.ob("C06.R2", "a delayed event is scheduled at now + delay", ok, m=mr, node=c, fn=pc, instance="delay:at_time", reason=f"at_time={ast.unparse(at) if at is not None else None}")
         for n in cfg.nodes_of(enclosing_stmt(c)):
-            f = facts_at(cfg, n, expand_locals=False)
+            f = facts_at(cfg, n, expand_locals=True)
             chk.ob("C06.R2", "scheduling happens exactly for positive delays", has_fact(f, f"{cmd}.delay is not None") and has_fact(f, f"{cmd}.delay > 0"), m=mr, node=c, fn=pc, instance="delay:positive-only",
                    reason=f"guards are {sorted(f)[:6]}")
     _, pop = repo.func(f"{RUNNER}.pop_due_ticks")
